@@ -871,8 +871,8 @@ func genC07Twin(seed uint64, tier string) *world.Scenario {
 		sc.Params["preC"] = float64(kernel.Pick(hr, 0, hr.Range(0, c1), hr.Range(0, 255)))
 		sc.Params["preTicks"] = float64(hr.Range(1, 12))
 		if hr.Bool(0.8) {
-			sc.Faults = append(sc.Faults, world.FaultSpec{Op: "read", Target: "fan:" + f.ID + ":pwm", Nth: hr.Range(1, 30), Count: kernel.Pick(hr, 2, 6, 40, 1<<30),
-				Kind: kernel.Pick(hr, "ebusy", "ebusy", "eagain", "eio"), OnlyFlags: "upd"})
+			sc.Faults = append(sc.Faults, world.FaultSpec{Op: "read", Target: "fan:" + f.ID + ":pwm", Nth: kernel.Pick(hr, 1, 2, 3, 1, 2, 3, 4, 5, 6, hr.Range(1, 30)), Count: kernel.Pick(hr, 6, 40, 1<<30, 1<<30, 1<<30),
+				Kind: kernel.Pick(hr, "ebusy", "ebusy", "ebusy", "eagain", "eagain", "eio"), OnlyFlags: "upd"})
 		}
 		sc.Horizon += world.Dur(time.Duration(sc.Params["preTicks"]) * sc.Tick.D())
 		sc.Variant += "|history"
